@@ -5,7 +5,7 @@ META = dict(
     level='exploration',
     rule=('generated struct family: every sequence of length 1 and 2 (thorough: 3, plus length 4 over the 8 kinds whose guest size/alignment differs) over 17 field kinds '
           '{char, short, int, long, long long, unsigned long, bool, enum, float, double, T*, function pointer, char[5], long[3], T*[2], nested struct, const int} plus long '
-          'structs cycling all kinds in rotated orders, under two foreign ABIs (lp32 and wide, 16-bit pointers). Per struct: size / alignment / every field offset of the '
+          'structs cycling all kinds in rotated orders, under three foreign ABIs (lp32 and wide with 16-bit pointers, lp32 with 64-bit base-relative pointers). Per struct: size / alignment / every field offset of the '
           'sandbox image against an independently declared fixed-width guest struct AND against the generator\'s own layout routine; for all 3^n selections of boundary '
           'values (n <= 3; per-field sweeps for longer structs) at two placements (interior, ending on the last byte of the region): load of the whole struct, store of the '
           'whole struct (guest fields compared one by one, red zones), by-value argument and by-value result of an invocation; a field value that does not fit the other '
@@ -23,7 +23,7 @@ def run(ctx):
     nch = 16 if not ctx.thorough else 64
     specs = []
     total = 0
-    for abi in ('lp32', 'wide'):
+    for abi in ('lp32', 'wide', 'lp32p64'):
         paths, ns = c08_gen.emit(abi, ctx.tier, gen, nch)
         total += ns
         for i, p in enumerate(paths):
